@@ -279,8 +279,10 @@ func (c *Client) List(prefix string, opts ...backend.ListOption) (*backend.ListR
 			names = append(names, name)
 		}
 
-		if int64(len(names)) < maxKeys {
-			// Continue iterating pages to get more keys
+		if !options.Paginated || int64(len(names)) < maxKeys {
+			// Continue iterating pages to get more keys. Without pagination the
+			// caller cannot follow a continuation token, so every page is read
+			// (ListMaxKeys only sets the page size).
 			return true
 		}
 
